@@ -494,9 +494,10 @@ struct TunEngine : public Engine
                for (uint32 i=0; i<ng; i++)
                {
                   const uint32 c = r.below(4);
-                  // open finding C12-mini-held-header (corpus/C12/tun-mini-held-header.ops): with compression on, a held mini-tunnel
-                  // packet can go out with a wrong level byte; kept out of this stream, so compressing senders are never made to wait
-                  const uint32 g = compress ? 100000 : (c <= 1) ? 0 : (c == 2) ? 100000 : r.range(1, effMtu(k, mtu));
+                  // compressing senders are made to wait too (finding C12-mini-held-header, regression case
+                  // corpus/C12/tun-regress-mini-held-header.ops); only short writes are left out for them, because a cut deflated packet
+                  // cannot be printed in inflated canonical form
+                  const uint32 g = (c <= 1) ? 0 : ((c == 2)||(compress)) ? 100000 : r.range(1, effMtu(k, mtu));
                   line += (i ? "," : "") + u64s(g);
                }
             }
